@@ -1,2 +1,3 @@
 import CbGen.RangeTable
 import CbGen.Ladder
+import CbGen.FfiTable
